@@ -10,6 +10,7 @@ import (
 	"io"
 	"net/http"
 	"net/http/httptest"
+	"os"
 	"runtime/debug"
 	"strings"
 	"time"
@@ -129,7 +130,11 @@ func (s *Server) Serve(req *http.Request, d time.Duration) Result {
 		func() {
 			defer func() {
 				if r := recover(); r != nil {
-					res.Panic = fmt.Sprintf("%v @ %s", r, topRepoFrame(string(debug.Stack())))
+					st := string(debug.Stack())
+					if os.Getenv("VERIF_PANIC_STACK") != "" {
+						fmt.Fprintln(os.Stderr, st)
+					}
+					res.Panic = fmt.Sprintf("%v @ %s", r, topRepoFrame(st))
 				}
 			}()
 			s.Handler.ServeHTTP(rec, req)
@@ -165,8 +170,13 @@ func WithClientCert(req *http.Request, chain ...*x509.Certificate) *http.Request
 
 // AdminToken mints an x5c admin token for path (e.g. "/admin/provisioners") signed with the key of
 // crt, a client certificate this CA issued to an administrator's subject.
-func AdminToken(crt *x509.Certificate, key crypto.Signer, path, subject string) (string, error) {
-	so := new(jose.SignerOptions).WithType("JWT").WithHeader("x5c", []string{b64(crt.Raw)})
+// The intermediates that issued it go into x5c after the leaf: the CA verifies the chain up to its roots.
+func AdminToken(crt *x509.Certificate, key crypto.Signer, path, subject string, intermediates ...*x509.Certificate) (string, error) {
+	x5c := []string{b64(crt.Raw)}
+	for _, ic := range intermediates {
+		x5c = append(x5c, b64(ic.Raw))
+	}
+	so := new(jose.SignerOptions).WithType("JWT").WithHeader("x5c", x5c)
 	sig, err := jose.NewSigner(jose.SigningKey{Algorithm: jose.ES256, Key: key}, so)
 	if err != nil {
 		return "", err
